@@ -3,14 +3,15 @@ import Tmv.Lemmas.BlockSync
 Property theorems about the model `Tmv.BlockSync` of blockchain/v0 (pool.go, reactor.go
 `poolRoutine`), `VerifyCommitLight`/`VerifyCommit`, `validateBlock` and the hand-over
 (`reconstructLastCommit` → `CommitToVoteSet`). `sigOK` is an arbitrary signature predicate;
-the only assumption on validator sets is non-negative voting power. Runs are arbitrary lists of
+voting powers are natural numbers (as in every `ValidatorSet`), validator sets change along the
+chain as `updateState` prescribes (updates of block `h` are in force at `h + 2`). Runs are arbitrary lists of
 `Op` (what peers send, in any order, and every scheduling of the requester transitions). -/
 namespace Tmv.Props.C13
 open Tmv Tmv.BlockSync
 variable (sigOK : Nat → SignBytes → Nat → Bool)
 
 /-- a genesis state with two validators (powers 7 and 3) for the concrete witnesses -/
-def witnessSt0 : St := ⟨1, 0, BlockId.zero, [⟨1, 0, 7⟩, ⟨2, 1, 3⟩], []⟩
+def witnessSt0 : St := ⟨1, 0, BlockId.zero, [⟨1, 0, 7⟩, ⟨2, 1, 3⟩], [⟨1, 0, 7⟩, ⟨2, 1, 3⟩], []⟩
 
 /-- the store is a chain grown from `st0`: every saved block came with a commit carrying valid
 signatures of more than 2/3 of the validator set the state prescribed for its height, for exactly
@@ -21,14 +22,8 @@ inductive StoreOK (st0 : St) : List (Block × Commit) → St → Prop
       StoreOK st0 rest st → Quorum sigOK st.vals b.id b.height c → validate sigOK st b = .ok () →
       StoreOK st0 ((b, c) :: rest) (applyBlock st b)
 
-theorem StoreOK.vals {st0 : St} {l : List (Block × Commit)} {st : St}
-    (h : StoreOK sigOK st0 l st) : st.vals = st0.vals := by
-  induction h with
-  | nil => rfl
-  | cons _ _ _ ih => simpa [applyBlock] using ih
-
 /-- one iteration of the processing branch keeps the invariant -/
-theorem processStep_storeOK (st0 : St) (hn : NonNeg st0.vals) (n : Node)
+theorem processStep_storeOK (st0 : St) (n : Node)
     (h : StoreOK sigOK st0 n.store n.st) :
     StoreOK sigOK st0 (n.processStep sigOK).1.store (n.processStep sigOK).1.st := by
   unfold Node.processStep
@@ -47,19 +42,21 @@ theorem processStep_storeOK (st0 : St) (hn : NonNeg st0.vals) (n : Node)
         rename_i hv
         split at hc; · cases hc
         rename_i hval
-        have hvals : n.st.vals = st0.vals := h.vals sigOK
         have hq := verifyCommitLight_quorum sigOK n.st.vals first.id first.height second.lastCommit
-          (by rw [hvals]; exact hn) (by cases ‹Unit›; exact hv)
+          (by cases ‹Unit›; exact hv)
         exact StoreOK.cons h hq (by cases ‹Unit›; exact hval)
       · exact h
   · exact h
 
 /-- every operation other than processing leaves state and store alone -/
-theorem apply_storeOK (st0 : St) (hn : NonNeg st0.vals) (n : Node) (op : Op)
+theorem apply_storeOK (st0 : St) (n : Node) (op : Op)
     (h : StoreOK sigOK st0 n.store n.st) :
     StoreOK sigOK st0 (n.apply sigOK op).store (n.apply sigOK op).st := by
   cases op with
-  | process => exact processStep_storeOK sigOK st0 hn n h
+  | process => exact processStep_storeOK sigOK st0 n h
+  | restart =>
+    simp only [Node.apply, Node.restart]
+    split <;> split <;> first | exact h | (simpa [Node.new] using h)
   | connect id => simp only [Node.apply, Node.connect]; split <;> exact h
   | disconnect id => simp only [Node.apply, Node.disconnect]; split <;> exact h
   | status id b hh =>
@@ -88,7 +85,7 @@ theorem apply_storeOK (st0 : St) (hn : NonNeg st0.vals) (n : Node) (op : Op)
 the syncing node has saved and executed was covered — hash and part-set header — by a commit with
 valid signatures of more than two thirds of the validator set its own state prescribed for that
 height, and passed `validateBlock`; the seen commit stored with it is that commit. -/
-theorem saved_is_canonical (st0 : St) (hn : NonNeg st0.vals) (ops : List Op) :
+theorem saved_is_canonical (st0 : St) (ops : List Op) :
     StoreOK sigOK st0 ((Node.new st0).run sigOK ops).store ((Node.new st0).run sigOK ops).st := by
   suffices ∀ (n : Node), StoreOK sigOK st0 n.store n.st →
       StoreOK sigOK st0 (n.run sigOK ops).store (n.run sigOK ops).st from
@@ -98,19 +95,18 @@ theorem saved_is_canonical (st0 : St) (hn : NonNeg st0.vals) (ops : List Op) :
   | cons op rest ih =>
     intro n h
     simp only [Node.run, List.foldl_cons]
-    exact ih _ (apply_storeOK sigOK st0 hn n op h)
+    exact ih _ (apply_storeOK sigOK st0 n op h)
 
 /-- each stored entry, spelled out -/
 theorem stored_entry_justified {st0 : St} {l : List (Block × Commit)} {st : St}
     (h : StoreOK sigOK st0 l st) (b : Block) (c : Commit) (hm : (b, c) ∈ l) :
-    ∃ st', st'.vals = st0.vals ∧ Quorum sigOK st'.vals b.id b.height c ∧
-      validate sigOK st' b = .ok () := by
+    ∃ st', Quorum sigOK st'.vals b.id b.height c ∧ validate sigOK st' b = .ok () := by
   induction h with
   | nil => cases hm
   | cons hprev hq hv ih =>
     rcases List.mem_cons.mp hm with heq | hin
     · cases heq
-      exact ⟨_, hprev.vals sigOK, hq, hv⟩
+      exact ⟨_, hq, hv⟩
     · exact ih hin
 
 /-- **liar_dropped_and_retried (dropping).** When the check of the pair (first, second) fails,
@@ -272,13 +268,13 @@ synced block is a verifying signature with the right validator address — which
 NOT check beyond the first +2/3, see `handover_clean_fails` — then switching to consensus does not
 panic: the seen commit is found, `CommitToVoteSet` accepts every vote and the vote set has +2/3.
 (The seen commit being present and carrying the quorum is proved, not assumed.) -/
-theorem handover_clean_partial (st0 : St) (h0 : st0.lastHeight = 0) (hn : NonNeg st0.vals)
+theorem handover_clean_partial (st0 : St) (h0 : st0.lastHeight = 0)
     (ops : List Op)
     (hfull : ∀ b c rest, ((Node.new st0).run sigOK ops).store = (b, c) :: rest →
       FullyChecked sigOK c ((Node.new st0).run sigOK ops).st.lastVals c.sigs) :
     ((Node.new st0).run sigOK ops).handover sigOK = .notCaughtUp ∨
       ((Node.new st0).run sigOK ops).handover sigOK = .ok := by
-  have hs := saved_is_canonical sigOK st0 hn ops
+  have hs := saved_is_canonical sigOK st0 ops
   generalize (Node.new st0).run sigOK ops = n at *
   unfold Node.handover
   split
@@ -303,26 +299,25 @@ theorem handover_clean_partial (st0 : St) (h0 : st0.lastHeight = 0) (hn : NonNeg
 LastCommit has validator 0's valid signature (7 > 2/3 of 10) followed by a garbage signature -/
 def witnessSigOK : Nat → SignBytes → Nat → Bool := fun _ _ s => s == 1
 def witnessSt : St := witnessSt0
-def witnessB1 : Block := ⟨1, ⟨11, 12⟩, BlockId.zero, ⟨0, 0, BlockId.zero, []⟩, false⟩
+def witnessB1 : Block := ⟨1, ⟨11, 12⟩, BlockId.zero, ⟨0, 0, BlockId.zero, []⟩, false, none⟩
 def witnessB2 (tail : CSig) : Block :=
-  ⟨2, ⟨21, 22⟩, ⟨11, 12⟩, ⟨1, 0, ⟨11, 12⟩, [⟨.commit, 1, 0, 1⟩, tail]⟩, false⟩
+  ⟨2, ⟨21, 22⟩, ⟨11, 12⟩, ⟨1, 0, ⟨11, 12⟩, [⟨.commit, 1, 0, 1⟩, tail]⟩, false, none⟩
 def witnessOps (tail : CSig) : List Op :=
   [.connect 5, .status 5 1 2, .mkreq, .mkreq, .pick 1 5, .pick 2 5,
    .block 5 witnessB1, .block 5 (witnessB2 tail), .process]
 
 /-- **handover_clean_fails.** The full-strength clause "everything stored on the way (including the
 last seen commit) lets consensus start without error" is false of the model (and of the code:
-replays/C13-oracle-7d0bad20f70e5511.json, C13-oracle-5b49320530415ba0.json): after a run in which
+replays/C13-oracle-5671250f563f8991.json, C13-oracle-320a7c277c6c15c6.json): after a run in which
 every step was accepted, `reconstructLastCommit` panics on a garbage signature, resp. on a valid
 signature with a foreign validator address, placed after the first +2/3 of the tip's commit. -/
 theorem handover_clean_fails :
     ¬ ∀ (sigOK : Nat → SignBytes → Nat → Bool) (st0 : St) (ops : List Op),
-        st0.lastHeight = 0 → NonNeg st0.vals →
+        st0.lastHeight = 0 →
         ((Node.new st0).run sigOK ops).handover sigOK = .notCaughtUp ∨
           ((Node.new st0).run sigOK ops).handover sigOK = .ok := by
   intro h
   have := h witnessSigOK witnessSt (witnessOps ⟨.commit, 2, 0, 0⟩) rfl
-    (by intro v hv; simp [witnessSt, witnessSt0] at hv; rcases hv with rfl | rfl <;> decide)
   revert this
   decide
 
